@@ -651,16 +651,19 @@ func init() {
 			steps = 3
 		}
 		for _, re := range []int{0, 1} {
-			js = append(js, mk(sprintf("c13.cache.readsextend%d", re), rootPkg, "ZZ_C13_Cache", map[string]int{"nkeys": 2, "steps": steps, "readsextend": re, "canary": 0},
+			js = append(js, mk(sprintf("c13.cache.readsextend%d", re), rootPkg, "ZZ_C13_Cache", map[string]int{"nkeys": 2, "steps": steps, "readsextend": re, "canary": 0, "jumpset": 0},
 				func(b *Bounds) { b.Unwind = 70; b.MaxPaths = 500000 }))
 		}
+		// clock jumps of exactly one full turn of a wheel level (and one tick around it), through CleanUp
+		js = append(js, mk("c13.cache.full_turn_jumps", rootPkg, "ZZ_C13_Cache", map[string]int{"nkeys": 2, "steps": steps, "readsextend": 0, "canary": 0, "jumpset": 1},
+			func(b *Bounds) { b.Unwind = 70; b.MaxPaths = 500000 }))
 		rp := 2
 		if tier == "thorough" {
 			rp = 3
 		}
 		js = append(js, mk(sprintf("c13.race.pre%d", rp), rootPkg, "ZZ_C13_Race", nil,
 			func(b *Bounds) { b.Unwind = 140; b.Preempt = rp; b.Race = true; b.MaxPaths = 6000000; b.MaxWallS = 2400 }))
-		cj := mk("c13.cache.canary", rootPkg, "ZZ_C13_Cache", map[string]int{"nkeys": 1, "steps": 1, "readsextend": 0, "canary": 1}, func(b *Bounds) { b.Unwind = 70 })
+		cj := mk("c13.cache.canary", rootPkg, "ZZ_C13_Cache", map[string]int{"nkeys": 1, "steps": 1, "readsextend": 0, "canary": 1, "jumpset": 0}, func(b *Bounds) { b.Unwind = 70 })
 		cj.Canary = "c13.cache.canary"
 		js = append(js, cj)
 		return js
